@@ -22,6 +22,7 @@ requests
   csv       adds=…                                   → same, through save / load of a csv file
   torch     adds=…                                   → t=<ids;tensors|err:e> back=<container|err:e>       (float32 rounding)
   json      adds=…                                   → j=<json|err:e> back=<container|->
+  jsonrev   adds=…                                   → t=<ids;tensors|err:e>   (json file with the individuals' dict reversed, loaded, to tensors)
   fromtable cols=<name>,… rows=<id>@<rat>:<rat>…|…   → <container> | err:<e>
   fromtorch ids=<id>,… t=<name>~1~<rat>:…&<name>~2~<rat>:…;<rat>:…&…   → <container> | err:<e>     (row `e` = empty row)
 
@@ -213,6 +214,17 @@ def handle (line : String) : String :=
       match toJson c with
       | .error e => s!"j={fmtErr e} back=-"
       | .ok j => s!"j={fmtJson j} back={fmtContainer (fromJson j)}"
+  | "jsonrev" :: args =>
+    -- a JSON file whose dictionary of individuals is listed in the reverse order of its identifier list
+    -- (e.g. written with sort_keys, or by another tool), loaded, then converted to tensors
+    withBuilt args fun c =>
+      match toJson c with
+      | .error e => s!"t={fmtErr e}"
+      | .ok j =>
+        let c' := fromJson { j with individual_parameters := j.individual_parameters.reverse }
+        match toTorch rnd32 c' with
+        | .error e => s!"t={fmtErr e}"
+        | .ok it => s!"t={fmtTensors it}"
   | "fromtable" :: args =>
     (do
       let cols ← (kv args "cols") >>= parseList parseName
